@@ -253,6 +253,47 @@ func binaryLike(n int, seed uint32, lo, hi byte) []byte {
 	return b
 }
 
+// skewed draws from alpha byte values with geometrically falling weights (ratio num/den) and, about
+// once in rare bytes, one of the other 256-alpha values: a source skewed enough to push codes of the
+// adaptive Huffman tree to its greatest depths (the coder rebuilds the tree every 32 K symbols).
+func skewed(n int, seed uint64, alpha int, num, den, rare uint64) []byte {
+	x := seed*0x2545F4914F6CDD1D + 0x9E3779B97F4A7C15
+	next := func() uint64 { // xorshift64*
+		x ^= x >> 12
+		x ^= x << 25
+		x ^= x >> 27
+		return x * 0x2545F4914F6CDD1D
+	}
+	cum := make([]uint64, alpha)
+	w, tot := uint64(1)<<40, uint64(0)
+	for i := range cum {
+		tot += w
+		cum[i] = tot
+		w = w * num / den
+	}
+	vals := make([]byte, 256) // a fixed shuffle of the byte values
+	for i := range vals {
+		vals[i] = byte(i)
+	}
+	for i := 255; i > 0; i-- {
+		k := int(next() % uint64(i+1))
+		vals[i], vals[k] = vals[k], vals[i]
+	}
+	b := make([]byte, n)
+	for i := range b {
+		if next()%rare == 0 {
+			b[i] = vals[alpha+int(next()%uint64(256-alpha))]
+			continue
+		}
+		r, k := next()%tot, 0
+		for k < alpha-1 && r >= cum[k] {
+			k++
+		}
+		b[i] = vals[k]
+	}
+	return b
+}
+
 func periodic(n, p int) []byte {
 	b := make([]byte, n)
 	for i := range b {
@@ -315,6 +356,10 @@ func longFamily(thorough bool) []namedInput {
 			namedInput{fmt.Sprintf("binary-01-00/%d", n), binaryLike(n, 4712, 0x01, 0x00)},
 			namedInput{fmt.Sprintf("binary-ff-fe/%d", n), binaryLike(n, 4713, 0xff, 0xfe)},
 		)
+	}
+	// very skewed sources, long enough for several rebuilds: the deepest codes of the adaptive tree
+	for i, sh := range [][4]uint64{{12, 3, 4, 1000}, {12, 3, 4, 3000}, {9, 3, 4, 300}, {10, 3, 5, 3000}, {11, 7, 10, 600}, {12, 2, 3, 2000}} {
+		out = append(out, namedInput{fmt.Sprintf("skewed-%d/150000", i), skewed(150000, uint64(i+1), int(sh[0]), sh[1], sh[2], sh[3])})
 	}
 	if thorough {
 		out = append(out, namedInput{"text/full", corpusText(1 << 30)})
